@@ -170,6 +170,7 @@ fn main() {
                         "C07" => Ok(sdjwt_model::ops_run::run_c07(&bytes)),
                         "C08" => Ok(sdjwt_model::ops_run::run_c08(&bytes)),
                         "C03" => Ok(sdjwt_model::ops_run::run_c03(&bytes)),
+                        "C10" => Ok(sdjwt_model::ops_run::run_c10(&bytes)),
                         _ => Err("this property has no fuzz-input decoder; the replay file must be a JSON case file".to_string()),
                     })
                 }
